@@ -57,11 +57,15 @@ def readB (n : Nat) : Nat := cmdB + n * rdB 512 + cmdB
 def readD (n : Nat) : Nat := cmdD + n * DEFAULT_READ_RETRIES + cmdD
 /-- total payload of the blocks handed to `write` (`512 * blocks.length` for real blocks) -/
 def payload (blocks : List Bytes) : Nat := (blocks.map List.length).sum
+/-- bytes of `write`: three commands (CMD55, ACMD23, CMD25 — the single-block path needs two), the
+busy waits after ACMD23, before the stop token and after it, the stop token, and per block a busy
+wait, token, CRC, data response and the payload -/
 def writeB (blocks : List Bytes) : Nat :=
-  cmdB + cmdB + cmdB + (DEFAULT_WRITE_RETRIES + 1) + (DEFAULT_WRITE_RETRIES + 1) + 1
+  cmdB + cmdB + cmdB + (DEFAULT_WRITE_RETRIES + 1) + (DEFAULT_WRITE_RETRIES + 1) + 1 + (DEFAULT_WRITE_RETRIES + 1)
     + blocks.length * ((DEFAULT_WRITE_RETRIES + 1) + 4) + payload blocks
 def writeD (blocks : List Bytes) : Nat :=
-  cmdD + cmdD + cmdD + DEFAULT_WRITE_RETRIES + DEFAULT_WRITE_RETRIES + blocks.length * DEFAULT_WRITE_RETRIES
+  cmdD + cmdD + cmdD + DEFAULT_WRITE_RETRIES + DEFAULT_WRITE_RETRIES + DEFAULT_WRITE_RETRIES
+    + blocks.length * DEFAULT_WRITE_RETRIES
 def csdB : Nat := cmdB + rdB 16
 def csdD : Nat := cmdD + DEFAULT_READ_RETRIES
 
